@@ -84,6 +84,19 @@ CHECKS.update({
             "DESIGN.md §2 C05"),
 })
 
+CHECKS.update({
+    "C06": ("fault_enumeration",
+            "socket ledger at the socket_module seam (owner, per-call history with the timeout in force, closes) + offline ledger checker under enumerated fault plans",
+            "Every socket call of an operation (getaddrinfo, socket(), setsockopt, wrap_socket, both settimeouts, connect, sendall, recv, close) is faulted with every error kind, and depth-2 plans are derived from the traces of depth-1 runs so later resolved addresses, cleanup paths and re-connections are faulted too; servers with 1/2/3 resolved addresses of mixed families, UNIX sockets and TLS-wrapped TCP; connect_timeout/timeout/no_delay/keepalive configurations; Client, PooledClient, HashClient. The ledger must show: at most one open socket per owning Client, every socket closed by the end (and a failed one before the failed call returns), no use after close or after a hard failure, the next call working on a fresh socket, connect() under connect_timeout and I/O under timeout, TLS connections only through the wrapper, options applied, and fallback to a later address when socket creation fails for an earlier one.",
+            "Trusts FakeNet's ledger; ownership is attributed by finding the pymemcache Client instance on the creating call stack. Depth-2 plans are sampled in quick, exhaustive in thorough.",
+            "DESIGN.md §2 C06"),
+    "C07": ("fault_enumeration",
+            "miss-equivalence monitor: the failure result of every read under injected faults vs the same call on an empty healthy server through the same class",
+            "With ignore_exc=True every read (get, gets, gat, gats, get_many, gets_many) of Client, PooledClient and HashClient (1..3 servers, pooled or not, retry_attempts 0 and 2) is run under every single-fault plan of C01 at every socket call of the read, with servers refusing/timing out/resetting (one or all down), with a deserializer that raises and with undecodable items, defaults passed as sentinels by keyword where the signature accepts them and positionally for get; the result must equal (value, type, shape) the miss result, nothing may be raised, and set+get must work afterwards.",
+            "The miss result of the same class is taken as the specification; parameters a class does not accept are not passed (C16's subject).",
+            "DESIGN.md §2 C07"),
+})
+
 NOT_YET = "check not built yet in this round (runtime-monitoring design in DESIGN.md §2); will be claimed once its monitor exists"
 
 manifest = {
